@@ -40,7 +40,7 @@ func graphSweep(c *Ctx, maxN int, thorough bool, emit func(g *gspec)) {
 		seen[key] = true
 		emit(g)
 	}
-	placesSmall := []int{0, 1, 2, 3, 4, 5, 7, 8}
+	placesSmall := []int{0, 1, 2, 3, 4, 5, 7, 8, 9}
 	for n := 1; n <= maxN; n++ {
 		tops := topologies(n, n >= 3)
 		for _, mask := range tops {
